@@ -303,6 +303,12 @@ pub fn record_geometry(output: &str) {
     let mut last_q0: Joints = [0.0; 6];
     for k in 0..n {
         let pools = pools_for(k, if thorough() { 5 } else { 3 });
+        // every second case asks through a tool wrapper (any transform): a tool does not move the links, so the bodies
+        // are still where the bare robot's link poses put them (the scene and the brute-force distances use those)
+        let tooled: Box<dyn Kinematics> = if k % 2 == 1 {
+            Box::new(rs_opw_kinematics::tool::Tool { robot: std::sync::Arc::new(robot()), tool: Isometry3::new(nalgebra::Vector3::new(r.gen_range(-0.2..0.2), r.gen_range(-0.2..0.2), r.gen_range(0.0..0.3)), nalgebra::Vector3::new(r.gen_range(-1.0..1.0), r.gen_range(-1.0..1.0), r.gen_range(-1.0..1.0))) })
+        } else { Box::new(robot()) };
+        let asked: &dyn Kinematics = tooled.as_ref();
         let case = make_case(&mut r, k);
         // (one case in four stands at the very joint vector of the preceding case: another body, the same joints)
         let q0: Joints = if k % 4 == 3 { last_q0 } else { std::array::from_fn(|_| r.gen_range(-1.0..1.0)) };
@@ -319,7 +325,7 @@ pub fn record_geometry(output: &str) {
             for &pool in &pools {
                 let base = json!({"ev": "collision", "pool": pool, "mode": mode_name, "tool": has_tool, "base": has_base, "nenv": nenv,
                     "table": tj, "def_env": case.def_env_um, "def_robot": case.def_robot_um, "pairs": pairs_json(&brute), "class": case.class, "case": k});
-                let rep = guarded(|| in_pool(pool, || (body.collides(&q0, &kin), body.collision_details(&q0, &kin))));
+                let rep = guarded(|| in_pool(pool, || (body.collides(&q0, asked), body.collision_details(&q0, asked))));
                 let mut e = base.clone();
                 match rep {
                     None => { e["api"] = json!("collision_details"); e["outcome"] = json!("panic"); e["report"] = json!([]); e["verdict"] = json!(false); out.put(e); }
@@ -339,7 +345,7 @@ pub fn record_geometry(output: &str) {
                 let body_mode = match mode_name { "all" => [CheckMode::FirstCollisionOnly, CheckMode::NoCheck][(k / 2) % 2], "first" => CheckMode::AllCollsions, _ => CheckMode::AllCollsions };
                 let body2 = scene::build(&case.scene, &kin, &q0, &base_pose, safety_from(&table_json(&own), 0, 0, body_mode));
                 let custom = safety_from(&tj, case.def_env_um, case.def_robot_um, mode);
-                let rep = guarded(|| in_pool(4, || body2.near(&q0, &kin, &custom)));
+                let rep = guarded(|| in_pool(4, || body2.near(&q0, asked, &custom)));
                 let mut e = json!({"ev": "collision", "pool": 4, "mode": mode_name, "tool": has_tool, "base": has_base, "nenv": nenv,
                     "table": tj, "def_env": case.def_env_um, "def_robot": case.def_robot_um, "pairs": pairs_json(&brute), "class": case.class, "case": k, "api": "near", "verdict": false});
                 match rep {
